@@ -690,18 +690,6 @@ DoubleSupport::isValid(const XalanDOMChar*      theString)
 
 
 
-inline double
-modfRound(double  theValue)
-{
-    double          intPart = 0;
-
-        std::modf(theValue + 0.5, &intPart);
-
-    return intPart;
-}
-
-
-
 double
 DoubleSupport::round(double     theValue)
 {
@@ -717,46 +705,19 @@ DoubleSupport::round(double     theValue)
     {
         return getNegativeInfinity();
     }
-    else if (theValue == 0)
-    {
-        return 0.0;
-    }
-    else if (theValue > 0)
-    {
-        // If the value is less than the maximum value for
-        // a long, this is the fastest way to do it.
-        if (theValue < LONG_MAX)
-        {
-            return long(theValue + 0.5);
-        }
-        else
-        {
-            return modfRound(theValue);
-        }
-    }
     else
     {
-        // Negative numbers are a special case.  Any time we
-        // have -0.5 as the fractional part, we have to
-        // round up (toward 0), rather than down.
-        double          intPart = 0;
+        // XPath 4.4: the integer closest to the argument, and of two
+        // such integers the one closest to positive infinity.  The
+        // fractional part is computed exactly, so there is no rounding
+        // error from adding 0.5 to the argument.
+        const double    theFloor = std::floor(theValue);
 
-        const double    fracPart = 
-            std::modf(theValue, &intPart);
+        const double    theResult =
+            theValue - theFloor >= 0.5 ? theFloor + 1.0 : theFloor;
 
-        const double    theAdjustedValue =
-            fracPart == -0.5 ? theValue + 0.5 : theValue - 0.5;
-
-        // If the value is greater than the minimum value for
-        // a long, this is the fastest way to do it.
-        if (theAdjustedValue > LONG_MIN)
-        {
-            return long(theAdjustedValue);
-        }
-        else
-        {
-            return modfRound(theAdjustedValue);
-        }
+        // An argument in [-0.5, -0] rounds to negative zero.
+        return theResult == 0.0 ? std::copysign(0.0, theValue) : theResult;
     }
 }
 
